@@ -124,6 +124,62 @@ def cleanup_run_dir():
         shutil.rmtree(_RUN_DIR, ignore_errors=True)
 
 
+
+# ---- guard against alarms caused by under-specified std functions (iterator adapters, closure-taking combinators) ----
+# Verus accepts e.g. `v.iter().rev().find(|x| ..)` but knows (almost) nothing about the result: an obligation that fails in a
+# function using such a call says nothing about the code. The extracted text of the UNCHANGED tree is profiled once
+# (vx/weak_baseline.json, tools/mk_weak_baseline.py); a function of the working tree that contains MORE of these calls than its
+# baseline is "tainted": its failing obligations are demoted to auxiliary (verdict UNDECIDED, never VIOLATION).
+WEAK_RE = re.compile(r"\.\s*(rev|find|any|all|map|filter|position|rposition|fold|count|sum|product|collect|enumerate|zip|for_each|max_by|max_by_key|min_by|"
+                     r"min_by_key|filter_map|flat_map|take_while|skip_while|map_while|partition|chain|nth|find_map|cloned|copied|flatten|peekable|"
+                     r"step_by|windows|chunks|retain|sort_by|sort_by_key|sort_unstable_by|sort_unstable_by_key|dedup|dedup_by_key|drain|binary_search_by|binary_search_by_key|"
+                     r"partition_point|iter|iter_mut|into_iter|unwrap_or_else|map_or|map_or_else|and_then|or_else|is_some_and|is_ok_and|ok_or_else|"
+                     r"then|then_some|take|skip|last|min|max|rfind|rev_iter|try_fold|reduce|scan|inspect|fuse|cycle|split|splitn|chars|bytes|lines)\s*(?:::\s*<[^>]*>\s*)?\(")
+
+
+def weak_profile(b):
+    """per extracted function: how many calls of each under-specified std method its repo-origin lines contain"""
+    lines = b.text.split("\n")
+    prof = {}
+    for (a, e, name) in b.fn_spans:
+        if name.endswith("__canary"):
+            continue
+        cnt = {}
+        for gl in range(a, min(e, len(lines)) + 1):
+            origin = b.linemap[gl - 1] if gl - 1 < len(b.linemap) else ("gen", None, 0)
+            if origin[0] != "repo":
+                continue
+            code = lines[gl - 1].split("//")[0]
+            for m in WEAK_RE.finditer(code):
+                cnt[m.group(1)] = cnt.get(m.group(1), 0) + 1
+        old = prof.setdefault(name, {})
+        for k_, v_ in cnt.items():
+            old[k_] = old.get(k_, 0) + v_
+    return prof
+
+
+_WEAK_BASE = None
+
+
+def weak_tainted(unit, b):
+    """functions whose extracted text has more under-specified calls than recorded for the unchanged tree: {fn: [names]}"""
+    global _WEAK_BASE
+    if _WEAK_BASE is None:
+        try:
+            _WEAK_BASE = json.load(open(os.path.join(VERIF, "vx", "weak_baseline.json")))
+        except Exception:
+            _WEAK_BASE = {}
+    base = _WEAK_BASE.get(unit)
+    if base is None:
+        return {}
+    res = {}
+    for fn, cnt in weak_profile(b).items():
+        more = [k_ for k_, v_ in cnt.items() if v_ > base.get(fn, {}).get(k_, 0)]
+        if more:
+            res[fn] = sorted(more)
+    return res
+
+
 def run_unit(unit, variant, multiple_errors=20, extra_args=(), rlimit=None, inline=None):
     ur = UnitRun(unit, variant)
     t0 = time.time()
@@ -293,6 +349,16 @@ def run_unit(unit, variant, multiple_errors=20, extra_args=(), rlimit=None, inli
                           "rendered": (d.get("rendered") or "")[:3000]})
     ur.lost = list(b.lost)
     ur.unaccounted = list(getattr(b, "unaccounted", []))
+    ur.tainted = weak_tainted(unit, b)
+    if ur.tainted and ur.failed:
+        # any failing obligation of this unit may be an artefact of the unknown results: callers see tainted callees through
+        # their (then unprovable, hence assumed) contracts only, so the demotion is limited to the tainted functions themselves
+        for f_ in ur.failed:
+            if f_["fn"] in ur.tainted or f_["fn"].replace("__canary", "") in ur.tainted:
+                f_["primary"] = False
+                f_["tainted"] = ur.tainted.get(f_["fn"]) or ur.tainted.get(f_["fn"].replace("__canary", ""))
+        undec.append("function(s) %s now call std functions without a usable specification (%s): failing obligations there are no verdict" % (
+            ", ".join(sorted(ur.tainted)), ", ".join(sorted({x for v in ur.tainted.values() for x in v}))))
     if undec and not ur.failed:
         ur.status, ur.reason = "undecided", "; ".join(undec)[:800]
     elif ur.failed:
